@@ -354,6 +354,7 @@ type State struct {
 	seen    map[string]bool         // assumptions already on the path
 	names   map[string]string       // named sub-terms (heap reads)
 	polls   []poll                  // stop polls passed since the head of the innermost loop (C16)
+	loopBinds map[string]Val        // $i<ord> / $range<ord> of the enclosing loops
 }
 
 // poll is a point where the goroutine looks at the stop signals: a select with stop cases
@@ -419,6 +420,12 @@ func (s *State) fork() *State {
 		n.inlined = make(map[*ast.CallExpr][]Val, len(s.inlined))
 		for k, v := range s.inlined {
 			n.inlined[k] = v
+		}
+	}
+	if s.loopBinds != nil {
+		n.loopBinds = map[string]Val{}
+		for k, v := range s.loopBinds {
+			n.loopBinds[k] = v
 		}
 	}
 	if s.ghostTmp != nil {
